@@ -47,6 +47,9 @@ def check(run):
         # What goes wrong there depends on which goroutine gets the descriptor next, so the scenario runs in several processes side by side.
         pipe_cases = ['pipe %s 16 %d 10KB %d %d 100000 0' % (rng.choice(['text', 'json']), ne_, lo_, hi_)
                       for (ne_, lo_, hi_) in [(24, 9000, 11000), (40, 4500, 5500)] * (4 if quick else 12)]
+        # two loggers whose File appenders write to one and the same file
+        for lay_ in ('text', 'json'):
+            cases.append('file2 %s %d %d 10KB 0 300 100000 0' % (lay_, rng.choice([4, 8]), 150))
         # one logger, two appenders with different layouts AND different file:line widths (caller location on; the call site's file:line is longer than the smaller width)
         for ng_ in ((4, 16) if quick else (1, 2, 4, 8, 16, 32)):
             cases.append('dual text %d %d 10KB 0 200 100000 0' % (ng_, 200 // ng_ + 5))
@@ -84,7 +87,7 @@ def check(run):
             if not bad:
                 run.discharged += 1
             total = sum(int(o.split()[0]) for o in io if o.split()[0].isdigit())
-            run.stream('c03/concurrent', len(cases), len(cases), False, '2-64 goroutines x both layouts x console (slow, chunk-copying, yielding writer; a real pipe whose reader stalls three times for 2.2 s with the pipe full) / file / rolling appenders / a console and a file appender with different layouts and file:line widths behind one logger x bufferCap 1K/4K/10K x line sizes below, every event stamped (TimeNow hook) with its own second, millisecond and zone, plus high-contention runs (16-64 goroutines, short lines, fast sinks), '
+            run.stream('c03/concurrent', len(cases), len(cases), False, '2-64 goroutines x both layouts x console (slow, chunk-copying, yielding writer; a real pipe whose reader stalls three times for 2.2 s with the pipe full) / file / rolling appenders / two File appenders of two loggers on one file / a console and a file appender with different layouts and file:line widths behind one logger x bufferCap 1K/4K/10K x line sizes below, every event stamped (TimeNow hook) with its own second, millisecond and zone, plus high-contention runs (16-64 goroutines, short lines, fast sinks), '
                        'in the upper half of, around and beyond the cap; with and without a context-fields hook that hands every call the same slice (spare capacity); oracle: multiset of whole lines in the sink = multiset of events formatted alone, one Write per event (%d events in total)' % total)
             run.coverage['samples'].append({'stream': 'c03/concurrent', 'case': cases[0], 'observation': io[0][:200]})
         # (iii) thorough: the same runs under the race detector (a data race on a pooled buffer is reported even when the bytes happen to agree)
